@@ -390,6 +390,48 @@ def _hard_check(assertions, tmo_ms, seed=0, leaves=None, grace_s=2.0):
         return "unknown", None, "no answer from the solver process: %s" % e
 
 
+_EUF_KINDS = None
+
+
+def euf_abstract(terms):
+    """arithmetic operators replaced by uninterpreted functions (per operator and arity): what is valid under this
+    abstraction is valid in arithmetic (only congruence and equality reasoning are left), so `unsat` is a proof.
+    Used for goals that follow from proved equalities by substitution inside large non-linear terms."""
+    global _EUF_KINDS
+    if _EUF_KINDS is None:
+        _EUF_KINDS = {z3.Z3_OP_ADD: "add", z3.Z3_OP_MUL: "mul", z3.Z3_OP_SUB: "sub", z3.Z3_OP_DIV: "div",
+                      z3.Z3_OP_UMINUS: "neg", z3.Z3_OP_IDIV: "idiv", z3.Z3_OP_MOD: "mod", z3.Z3_OP_POWER: "pow",
+                      z3.Z3_OP_TO_REAL: "toreal", z3.Z3_OP_TO_INT: "toint"}
+    cache = {}
+    funs = {}
+    keep = []
+
+    def go(t):
+        key = t.get_id()
+        if key in cache:
+            return cache[key]
+        if z3.is_quantifier(t):
+            raise ValueError("quantifier")
+        if not z3.is_app(t) or t.num_args() == 0:
+            cache[key] = t
+            return t
+        args = [go(c) for c in t.children()]
+        k = t.decl().kind()
+        if k in _EUF_KINDS:
+            sig = (_EUF_KINDS[k], tuple(a.sort().name() for a in args), t.sort().name())
+            f = funs.get(sig)
+            if f is None:
+                f = funs[sig] = z3.Function("euf_%s_%d_%d" % (sig[0], len(args), len(funs)),
+                                            *([a.sort() for a in args] + [t.sort()]))
+            r = f(*args)
+        else:
+            r = t.decl()(*args)
+        keep.append(t)
+        cache[key] = r
+        return r
+    return [go(t) for t in terms]
+
+
 def _solve(idx):
     ob, extra_axioms, leaves = _OBS[idx]
     t0 = time.time()
@@ -430,6 +472,16 @@ def _solve(idx):
     for inst in insts:
         s.add(inst)
     s.add(z3.Not(goal))
+    # congruence-only attempt on the quantifier-free part (cheap; decides goals that follow from proved equalities by
+    # substitution inside non-linear terms, where the arithmetic solvers do not terminate)
+    try:
+        qf = [a_ for a_ in s.assertions() if not _has_quantifier(a_)]
+        if len(qf) < len(s.assertions()) or True:
+            ab = euf_abstract(qf)
+            if _hard_check(ab, 3000, grace_s=1.0)[0] == "unsat":
+                return idx, "proved", None, time.time() - t0, "z3-euf", None
+    except ValueError:
+        pass
     # portfolio with restarts: the sum/extensionality queries have heavy-tailed running times (the same obligation takes
     # 2 s or 60 s depending on the fresh names), so several short attempts with different seeds and with / without the
     # additional ground instances are far more stable than a single long one.  Every added instance is a consequence of
